@@ -152,6 +152,31 @@ async def extra(dis):
                 rs = sdrain(lambda: itertools.accumulate(xs2, initial=init))
                 if ra != rs:
                     dis.append(("accumulate_falsy_initial", init, xs2, mode, ra, rs))
+    # None as an element, as a key and as a callback result (an edit that uses None as its "nothing yet" sentinel)
+    async def knone(x):
+        return None if x == 1 else x
+
+    async def fnone(a, b):
+        return None
+
+    for k in range(0, 4):
+        for xs3 in P([None, 1, 2], repeat=k):
+            xs3 = list(xs3)
+            for mode in ("sync", "async"):
+                src = (lambda: xs3) if mode == "sync" else (lambda: aiter_of(xs3))
+                pairs = [
+                    ("groupby_none", lambda: ai.groupby(src()), lambda: ((kk, list(g)) for kk, g in itertools.groupby(xs3))),
+                    ("groupby_none_key", lambda: ai.groupby(src(), knone), lambda: ((kk, list(g)) for kk, g in itertools.groupby(xs3, lambda x: None if x == 1 else x))),
+                    ("accumulate_none_result", lambda: ai.accumulate(src(), fnone), lambda: itertools.accumulate(xs3, lambda a, b: None)),
+                    ("pairwise_none", lambda: ai.pairwise(src()), lambda: itertools.pairwise(xs3)),
+                    ("dropwhile_none", lambda: ai.dropwhile(knone, src()), lambda: itertools.dropwhile(lambda x: None if x == 1 else x, xs3)),
+                    ("zip_longest_none", lambda: ai.zip_longest(src(), [None, 1]), lambda: itertools.zip_longest(xs3, [None, 1])),
+                ]
+                for name, mk_a, mk_s in pairs:
+                    ra = await drain(mk_a())
+                    rs = sdrain(mk_s)
+                    if ra != rs:
+                        dis.append((name, (), xs3, mode, ra, rs))
     # tee(): number of iterators / error class for small n
     for k in (-2, -1, 0, 1, 2, 3):
         try:
